@@ -168,6 +168,8 @@ class ExecCore:
         return ANY
 
     def class_type(self, q: str) -> Ty:
+        if q == "rp2.rp2_decimal.RP2Decimal":
+            return DEC
         c = self.tree.cls(q)
         if c.is_enum:
             return V.Enum(q)
@@ -620,16 +622,35 @@ class ExecCore:
         self.path_counter += 1
         self.vcs.append(VC(self.cur_func, kind, label, list(st.pc), goal, loc, self.path_counter, note))
 
+    # feasibility / entailment queries share one incremental solver whose assertion stack mirrors a path-condition prefix
+    def _sync(self, pc: List) -> None:
+        nl = len(V.STR_LITS) + (10000 if V.CASE_USED[0] else 0) + 100000 * len(self.global_axioms)
+        if getattr(self, "_feas_lits", None) != nl:
+            self._feas = z3.Solver()
+            self._feas.set("timeout", 80)
+            # pruning only: quantified axioms are left out (fewer prunings, never an unsound one)
+            self._feas.add(*[a for a in V.str_axioms() if not z3.is_quantifier(a)])
+            self._feas.add(*[a for a in self.global_axioms if not z3.is_quantifier(a)])
+            self._feas_stack = []
+            self._feas_lits = nl
+        stack = self._feas_stack
+        i = 0
+        n = min(len(stack), len(pc))
+        while i < n and stack[i] is pc[i]:
+            i += 1
+        while len(stack) > i:
+            self._feas.pop()
+            stack.pop()
+        for p in pc[i:]:
+            self._feas.push()
+            self._feas.add(p)
+            stack.append(p)
+
     def feasible(self, st: State) -> bool:
         if any(z3.is_false(p) for p in st.pc):
             return False
-        self._feas.push()
-        try:
-            self._feas.add(*st.pc)
-            self._feas.add(*V.str_axioms())
-            return self._feas.check() != z3.unsat
-        finally:
-            self._feas.pop()
+        self._sync(st.pc)
+        return self._feas.check() != z3.unsat
 
     def entails(self, st: State, b) -> bool:
         """Cheap check pc |= b (used only to prune, never to discharge an obligation)."""
@@ -638,10 +659,9 @@ class ExecCore:
             return True
         if z3.is_false(b):
             return False
+        self._sync(st.pc)
         self._feas.push()
         try:
-            self._feas.add(*st.pc)
-            self._feas.add(*V.str_axioms())
             self._feas.add(z3.Not(b))
             return self._feas.check() == z3.unsat
         finally:
